@@ -78,26 +78,37 @@ def cases(draw, trailing_backslash_ok):
     kinds = draw(st.lists(st.sampled_from(['plain', 'plain', 'mz', 'matrix']),
                           min_size=count, max_size=count))
     if count >= 3 and draw(st.booleans()):
-        kinds[:3] = ['plain', 'mz', 'matrix']
+        kinds[:3] = draw(st.sampled_from([
+            ['plain', 'mz', 'matrix'], ['matrix', 'plain', 'matrix'],
+            ['matrix', 'mz', 'matrix'], ['mz', 'matrix', 'mz']]))
     labels = draw(st.lists(names(trailing_backslash_ok), min_size=count,
                            max_size=count, unique=True))
     population, second = [], []
+    # real installations repeat colours: neighbouring cells, zones and
+    # lights often hold the very same colour (a dark tile, a uniform strip)
+    palette = [draw(color()) for _ in range(2)] + [[0, 0, 0, 3500]]
+    uniform = draw(st.integers(0, 2)) == 0
+
+    def shade():
+        if uniform:
+            return list(draw(st.sampled_from(palette)))
+        return draw(color())
     for label, kind in zip(labels, kinds):
         spec = {'label': label, 'group': draw(st.sampled_from(['G', 'H'])),
-                'location': 'L', 'kind': kind, 'color': draw(color()),
+                'location': 'L', 'kind': kind, 'color': shade(),
                 'power': draw(st.sampled_from([0, 65535]))}
         other = {'color': draw(color()),
                  'power': draw(st.sampled_from([0, 65535]))}
         if kind == 'mz':
             zones = draw(st.sampled_from([1, 2, 3, 8, 16, 40, 82]))
             spec['zones'] = zones
-            spec['zone_colors'] = [draw(color()) for _ in range(zones)]
+            spec['zone_colors'] = [shade() for _ in range(zones)]
             other['zone_colors'] = [draw(color()) for _ in range(zones)]
         elif kind == 'matrix':
             height, width = draw(st.sampled_from(
                 [(1, 1), (2, 3), (6, 5), (11, 5), (8, 8), (16, 4), (3, 7)]))
             spec['height'], spec['width'] = height, width
-            spec['cells'] = [draw(color()) for _ in range(height * width)]
+            spec['cells'] = [shade() for _ in range(height * width)]
             other['cells'] = [draw(color()) for _ in range(height * width)]
         population.append(spec)
         second.append(other)
